@@ -305,7 +305,28 @@ class ExecBase:
         self.abstracted.append((getattr(node, "lineno", 0), text[:80], str(err)[-80:]))
         flag = fresh("abstracted_raises", BoolS)
         self.may_raise(st, flag, Exc(None, origin="abstracted expression"), node)
-        return Val("any", fresh("abstracted", Any))
+        res = Val("any", fresh("abstracted", Any))
+        ind = self.opts.get("independent_of")
+        if ind is not None:
+            # non-interference: an abstracted expression that reads a source-dependent variable (or calls a local closure, which may) is
+            # itself source-dependent
+            srcs = [(n_, v_.e) for n_ in ind["sources"] for v_ in [self.entry_pre.vars.get(n_)] if isinstance(v_, Val)]
+            subst = [(e_, z3.Const(f"{n_}!other", e_.sort())) for n_, e_ in srcs]
+            tainted = self.__dict__.setdefault("tainted_refs", set())
+            dep = False
+            for n_ in ast.walk(node):
+                if isinstance(n_, ast.Name) and n_.id in st.vars:
+                    v_ = st.vars[n_.id]
+                    if isinstance(v_, FuncRef) and ".<locals>." in v_.qual:
+                        dep = True
+                    elif isinstance(v_, Ref) and v_.id in tainted:
+                        dep = True
+                    elif isinstance(v_, Val) and not z3.is_true(z3.simplify(v_.e == z3.substitute(v_.e, *subst))):
+                        dep = True
+            if dep and srcs:
+                es = [e_ for _n, e_ in srcs]
+                res = Val("any", z3.Function("dep.abstracted", Any, *[e_.sort() for e_ in es], Any)(res.e, *es))
+        return res
 
     def evalv(self, node, st) -> Val:
         return self.as_val(self.eval(node, st), st, node)
